@@ -144,13 +144,13 @@ NOT_YET = "check not built yet in this session (planned, see DESIGN.md §3)"
 
 # what the sensitivity rounds added on top of the descriptions above (DESIGN.md §11 lists every strengthening)
 ADDENDA = {
-    "C01": " Indices also as numpy integers / 0-d tensors; recorded context keys that themselves contain 'ctx.'. Indices >= len must not be answered.",
+    "C01": " Indices also as numpy integers / 0-d tensors; recorded context keys that themselves contain 'ctx.'. Indices >= len must not be answered. Modes that repeat jointly loaded items (generated, plus exhaustive facet fused-repeats).",
     "C02": " Also copy / deepcopy / pickle clones of a stack, tuple / ndarray / tensor subset indices, getdim aliases of item names with underscores. Helpers over subsets above bulk-less roots (refusal or right answer), a layer's indices re-assigned after accessors were obtained. Facet concat-normalises-negative-indices: parts without negative indexing below a concat; a shallow copy of a used concat re-configured. Per-sample accessors also called with the index as keyword (idx=).",
     "C03": " Also labels as numpy scalars / 0-d tensors, numpy seeds, duplicate class names, wrappers above two other index-changing layers, arguments must not be mutated. A prior build over the root before the build over a view, the binary class-shape convention (1,), shared class names generated on purpose. Facet large-datasets: 2**16+37 ... 2**17+5 samples; unknown long names; unseeded wrappers reproducible under equal global numpy state. Empty list-index views of non-empty roots; ClasswiseSubsetWrapper over (views of) roots without getall_class.",
     "C04": " Also positional construction, a second pass and two live iterators over one scheduler object, two-rank DistributedSampler mains. A config listed twice (same sampler object); datasets that expose a larger .dataset of their own.",
     "C05": " Also side samplers yielding numpy scalars / tensor views or changing length between passes, positional configs. Two configs over one dataset object. A config listed twice (same sampler object, equal fields) keeps its own concat part; datasets that are views exposing a .dataset of their own.",
     "C06": " Facet far-checkpoints: the three equivalent checkpoint forms must agree (stream and announced epochs) for checkpoints beyond 2**31 / 2**53 updates; drop_last as int / numpy bool. Facet accepted-geometries: model-free relation (resumed run == the implementation's own uninterrupted run from the epoch announcement on) for whatever geometry the constructor accepts, incl. oversized drop_last_batch_size. Configs listed twice and view datasets as in C04 / C05.",
-    "C07": " Also differing strength histories, the second instance as a deepcopy / pickle copy, members appended after construction, plain callables inside (wrapped) compositions, factory descriptions (kind-dicts / lists), PIL inputs. A member appended after a first injection.",
+    "C07": " Also differing strength histories, the second instance as a deepcopy / pickle copy, members appended after construction, plain callables inside (wrapped) compositions, factory descriptions (kind-dicts / lists), PIL inputs. A member appended after a first injection. Facet random-apply-over-description: KDRandomApply handed a kind-dict / list (refused, or judged).",
     "C08": " Also positional construction, numpy seeds, one transform shared by X and Y wrappers, reuse of the caller's view configs, pickle / deepcopy of the dataset mid-history, factory descriptions, a refused stack must stay refused. Facet fresh-interpreters: samples recomputed in newly started python processes with other hash seeds must be bit-identical. A stack the library refuses must stay refused. No view of one index repeats a view of another index.",
     "C09": " Also collators supplied through an overridden property, a user transform deriving state in the per-worker hook, the scheduler's own loader with a prefetch factor, stacks sharing one root, hook run once in the main process. Factory descriptions, a pseudo-label layer, a sample loaded in the main process before the workers exist. Plain callables before / between library members of a composition.",
     "C10": " Also label dtypes other than float32, a user subclass overriding the partner hook. float64 images, permuted non-contiguous batches, shuffle mode re-assigned after construction. Facet clip-batches: (B,C,T,H,W) batches with cutmix are refused or consistent. 8-bit images (refused or judged), inf marker pixels under pure cutmix.",
@@ -162,7 +162,7 @@ ADDENDA = {
     "C16": " Also numpy / omitted seeds, deepcopy / pickle of the second build, positional construction, integer vote tables and one-ulp near ties, stacked wrappers, class count re-configured after construction. Unlabeled samples through the encoders (refused or the -1 marker), pseudo-label threshold re-assigned after bulk access. Returned encodings modified in place between requests; group wrapper over re-configured labels.",
     "C17": " Facet ijepa-shared-step: through a 2-3 worker DataLoader the batches of one pass carry the block sizes of steps 0..n-1 (step counter shared by the forked workers); a subclass overriding step() is followed; multi-crop batches, non-square patches, a second batch size. Mask ratio re-assigned; the I-JEPA collator as member of wrapper / compose containers. Input sizes that are not multiples of the patch size.",
     "C18": " Also members appended after construction, collator objects wrapped a second time, python-float fields with dtype comparison, sequences with 3-4 axes. Dict items, members with a mode of their own inside containers, the shipped mix member's result is decoded. The fluent set_rng result used as collate function, tuple-valued items in padded samples, binary labels and batches of one through the shipped mix member.",
-    "C19": " Histories also go through an in-process DataLoader (batches with repeated indices), a long-lived forked reader across clears, a deep-copied twin used side by side, shallow copies, wrapped datasets offering __getitems__ or a transform attribute of their own, numpy indices. Post-cache transform re-assigned after construction. Indices below -len.",
+    "C19": " Histories also go through an in-process DataLoader (batches with repeated indices), a long-lived forked reader across clears, a deep-copied twin used side by side, shallow copies, wrapped datasets offering __getitems__ or a transform attribute of their own, numpy indices. Post-cache transform re-assigned after construction. Indices below -len. Facet keyed-datasets: map-style datasets addressed by fractions / strings / tuples.",
     "C20": " Path arguments as str / Path / through a symlinked parent / relative to the working directory, a symlinked sample in plain-folder sources, README files next to zips, upper-case archive suffixes, 33-65 zips with 2-3 workers. Home-relative (~) local paths, an outdated zip next to a folder source, glob metacharacters in paths. A damaged archive in a folder of zips; class folders with dots. Names with two dots in a row; a symlinked archive inside a folder of zips.",
 }
 
